@@ -1336,7 +1336,131 @@ def c10(tier):
                       assumptions=["archives with at least one entry, no prefix/gaps (a front-to-back reader cannot skip junk)"])
 
 
-CHECKS = {"C10": c10, "C04": c04, "C15": c15, "C16": c16, "C09": c09, "C19": c19, "C03": c03, "C13": c13, "C14": c14, "C01": c01, "C02": c02, "C12": c12, "C17": c17}
+def clone_steps(rnd, datas, nh, nsteps):
+    """a random interleaving; expected slices are computed per handle as if it were used alone"""
+    cur = {}
+    steps = []
+    for _ in range(nsteps):
+        h = rnd.randrange(nh)
+        c = rnd.random()
+        if h not in cur or c < 0.25:
+            i = rnd.randrange(len(datas))
+            cur[h] = [i, 0]
+            steps.append({"h": h, "op": "open", "i": i})
+        elif c < 0.9:
+            i, off = cur[h]
+            k = rnd.choice([1, 2, 3, 7, 50, 4096])
+            sl = datas[i][off:off + k]
+            cur[h][1] = off + len(sl)
+            steps.append({"h": h, "op": "read", "k": k, "plen": len(sl), "pcrc": crc_hex(sl)})
+        else:
+            del cur[h]
+            steps.append({"h": h, "op": "close"})
+    return steps
+
+
+def all_interleavings(scripts):
+    """every interleaving of the per-handle scripts (lists of steps), as lists of (h, step)"""
+    if all(len(s) == 0 for s in scripts):
+        yield []
+        return
+    for h, s in enumerate(scripts):
+        if s:
+            rest = [x[1:] if k == h else x for k, x in enumerate(scripts)]
+            for tail in all_interleavings(rest):
+                yield [(h, s[0])] + tail
+
+
+def c20(tier):
+    import refzip
+    rep = Report("C20", tier)
+    wd = vlib.workdir("C20", tier)
+    vlib.build_harness()      # the harness contains the compile-time Send + Sync assertions for ZipArchive<R>
+    rep.notes["send_sync"] = "asserted at compile time in harness/src/cexec.rs for Cursor<Vec<u8>>, Cursor<&[u8]> and the yielding reader"
+    r = vlib.tlc_mc("Clones.tla", "MC_Clones.cfg", wd, timeout=600, tag="mc-clones")
+    rep.add_mc(r, "MC_Clones.cfg")
+    if r["error"]:
+        rep.spec_violation(r, "MC_Clones.cfg")
+    for bug in ("shared_reader", "two_step_cache"):
+        r = vlib.tlc_mc("Clones.tla", "MC_Clones_%s.cfg" % bug, wd, timeout=300, tag="mc-" + bug)
+        found = bool(r["error"]) and "PerHandleView" in r["error"]
+        rep.neg_controls.append({"spec_mutant": bug, "expected_violation": "PerHandleView", "found": found})
+        if not found:
+            raise ToolTrouble("spec mutant %s not detected" % bug)
+    sd = vlib.seed()
+    rnd = random.Random(sd * 7919 + 20)
+    ents = [{"name": b"one.bin", "method": 0, "data": bytes(rnd.randrange(256) for _ in range(40))},
+            {"name": b"two.txt", "method": 8, "data": b"clone me " * 30, "lextra": [(0xcafe, b"x" * 9)]},
+            {"name": b"three.bz", "method": 12, "data": b"third entry " * 20},
+            {"name": b"four", "method": 0, "data": b"4444", "lextra": [(0xbeef, b"local only extra")]}]
+    b, v = refzip.build({"entries": ents})
+    datas = [e["data"] for e in v["entries"]]
+    scs = []
+    # exhaustive: all interleavings of short per-handle scripts for 2 and 3 handles
+    def script(i, ks):
+        out, off = [{"op": "open", "i": i}], 0
+        for k in ks:
+            sl = datas[i][off:off + k]
+            off += len(sl)
+            out.append({"op": "read", "k": k, "plen": len(sl), "pcrc": crc_hex(sl)})
+        return out
+    sets = [[script(0, [3, 5]), script(1, [4, 100])], [script(1, [2, 2]), script(1, [7, 1])],
+            [script(0, [1]), script(2, [6]), script(3, [2])], [script(3, [1, 1]), script(0, [40]), script(0, [2])]]
+    n = 0
+    for si, scripts in enumerate(sets):
+        inter = list(all_interleavings(scripts))
+        if tier == "quick" and len(inter) > 120:
+            inter = rnd.sample(inter, 120)
+        for il in inter:
+            steps = [dict(st, h=h) for h, st in il]
+            scs.append({"sc": "il%d-%05d" % (si, n), "hex": b.hex(), "handles": len(scripts), "steps": steps})
+            n += 1
+    rep.notes["exhaustive_interleavings"] = n
+    # random longer interleavings
+    for i in range(60 if tier == "quick" else 1500):
+        nh = rnd.randint(2, 6)
+        scs.append({"sc": "rnd%05d" % i, "hex": b.hex(), "handles": nh, "steps": clone_steps(rnd, datas, nh, rnd.randint(5, 60))})
+    # threads: one OS thread per handle, all entries in random orders, randomised yields inside the reader
+    for i in range(48 if tier == "quick" else 600):
+        nh = rnd.choice([4, 8, 16])
+        scripts = []
+        for h in range(nh):
+            steps = [dict(st) for st in clone_steps(rnd, datas, 1, rnd.randint(20, 120))]
+            for st in steps:
+                st["h"] = h
+            scripts.append(steps)
+        scs.append({"sc": "thr%05d" % i, "hex": b.hex(), "handles": nh, "threads": True, "yield_every": rnd.choice([1, 2, 3, 7]),
+                    "scripts": scripts, "steps": []})
+    progs = os.path.join(wd, "clone-scenarios.ndjson")
+    trace = os.path.join(wd, "clone-trace.ndjson")
+    vlib.write_ndjson(progs, scs)
+    vlib.run_harness(["cexec", progs, trace])
+    res = vlib.validate_segments("Trace_Clones.tla", "Trace_Clones.cfg", trace, wd, tag="clones")
+    rep.add_tv(res, {s["sc"]: {k: s[k] for k in s if k != "hex"} for s in scs}, "clones")
+    rep.evaluations += len(scs)
+    for s in scs:
+        rep.distinct.add(vlib.digest([s.get("steps"), s.get("scripts")]))
+    rep.samples.append({"scenario": scs[0]["sc"], "steps": scs[0]["steps"][:8]})
+    evs = vlib.read_ndjson(trace)
+    seg = [e for e in evs if e.get("sc") == scs[0]["sc"]]
+    rd = [i for i, e in enumerate(seg) if e.get("ev") == "CRead"]
+    if rd:
+        def mutate(es, k=rd[-1]):
+            es[k]["crc"] = "%08x" % (int(es[k]["crc"], 16) ^ 2)
+            return "CRead[%d].crc perturbed" % k
+        nc = vlib.corrupt_and_expect_reject("Trace_Clones.tla", "Trace_Clones.cfg", seg, wd, mutate, tag="clones-neg")
+        rep.neg_controls.append(nc)
+        if not nc["rejected"]:
+            raise ToolTrouble("negative control did not fire")
+    return rep.finish("model_checking",
+                      "Clones.tla: PerHandleView/CacheIdempotent over all interleavings of 3 handles x 2 entries (shared_reader and two_step_cache spec "
+                      "mutants are found); binding: ALL interleavings of short per-handle scripts (2-3 handles) and random long ones are driven on real "
+                      "clones on one thread; 4-16 OS threads with randomised yields inside the reader run per-handle scripts concurrently; every open "
+                      "must report the data start the bytes determine and every read the slice the handle would get alone; Send/Sync asserted at compile time",
+                      assumptions=["OS schedules are sampled, call-granularity interleavings are exhaustive for the short scripts"])
+
+
+CHECKS = {"C20": c20, "C10": c10, "C04": c04, "C15": c15, "C16": c16, "C09": c09, "C19": c19, "C03": c03, "C13": c13, "C14": c14, "C01": c01, "C02": c02, "C12": c12, "C17": c17}
 
 
 def setup():
